@@ -52,7 +52,7 @@ ASSUMPTIONS = ["pointers reach the store in canonical form base + integer offset
 INT, SYM, SUM = 0, 1, 2
 BASE_NAME = {INT: "int", SYM: "id", SUM: "sum"}
 WIDTHS = (8, 16, 32, 64)
-PROBE_OFFS = list(range(-6, 10))
+PROBE_OFFS = list(range(-5, 7))
 PROBE_OFFS_2ND = (-1, 0)
 NVAL = 3
 
@@ -206,8 +206,11 @@ class _Lifter(object):
 
 def make(seed):
     from miasm.ir.symbexec import SymbolicExecutionEngine
-    asz, primary, pre = seed
+    asz, primary, pre, limit, more = seed
     st = State()
+    st.limit = limit
+    st.more = more
+    st.nev = 0
     st.asz = asz
     st.mask = (1 << asz) - 1
     st.primary = primary
@@ -217,6 +220,7 @@ def make(seed):
     st.last = None
     for ev in pre:
         apply(st, tuple(ev))
+    st.nev = 0
     return st
 
 
@@ -238,12 +242,13 @@ DELS_MORE = [(1, 8), (-1, 8), (0, 16)]
 DELPS = [(-2, 32), (0, 16)]
 DELPS_MORE = [(-1, 64)]
 
-_MENU = {"more": False}
-
 
 def events(st):
+    """The menu of the state's seed; empty once the seed's own depth limit is reached."""
+    if st.nev >= st.limit:
+        return []
     p, s = st.primary, st.second
-    more = _MENU["more"]
+    more = st.more
     evs = []
     for off, vk in WRITES + (WRITES_MORE if more else []):
         evs.append(("w", p, off, vk))
@@ -277,6 +282,7 @@ def apply(st, ev):
     asz = st.asz
     sym = st.engine.symbols
     st.last = None
+    st.nev += 1
     if kind == "w":
         _, base, off, vk = ev
         vk = tuple(vk)
@@ -487,51 +493,84 @@ def canon(st):
         for off, (idx, e) in arr._offset_to_expr.items():
             impl.append((b, off, idx, str(e)))
     impl.sort()
-    return (st.asz, st.primary, tuple(sorted(st.model.items())), tuple(impl))
+    # limit - nev: states of seeds with different remaining depth budgets are not merged (each is expanded to its own bound)
+    return (st.asz, st.primary, st.more, st.limit - st.nev, tuple(sorted(st.model.items())), tuple(impl))
 
 
 def outcome(st, ev):
     return (ev[0], st.last)
 
 
-def _seeds(quick):
-    out = []
+PRE1 = (("w", SYM, -2, ("X", 64)), ("w", SYM, 0, ("Y", 16)), ("w", SYM, -1, ("C", 16)))      # overlapping, across the wrap
+PRE2 = (("w", INT, -1, ("X", 32)), ("w", INT, 1, ("C", 8)), ("w", INT, 3, ("C", 32)))        # wrap + adjacent constants
+PRE3 = (("w", SUM, -2, ("M", 32, 1)), ("w", SUM, 0, ("X", 16)))                              # shifted copy across the wrap
+
+# A seed is (address size, primary base, pre-applied events, own depth limit, extended menu).
+# SEEDS is the union of both tiers (one list, so that a recorded seed index is tier-independent).
+SEEDS = []
+PLAN = {"quick": [], "thorough": []}
+
+
+def _plan():
+    def add(tier, seed):
+        if seed not in SEEDS:
+            SEEDS.append(seed)
+        PLAN[tier].append(SEEDS.index(seed))
+    # quick: depth 3 on two systems, depth 2 on the four others, depth 2 behind the three seeded stores
+    for asz, primary in ((8, SYM), (32, SUM)):
+        add("quick", (asz, primary, (), 3, False))
+    for asz, primary in ((8, INT), (8, SUM), (32, INT), (32, SYM)):
+        add("quick", (asz, primary, (), 2, False))
+    for asz, primary, pre in ((8, SYM, PRE1), (32, INT, PRE2), (32, SUM, PRE3)):
+        add("quick", (asz, primary, pre, 2, False))
+    # thorough: depth 4 on every system (base menu), depth 3 with the extended menu, depth 3 behind six seeded stores
     for asz in (8, 32):
         for primary in (INT, SYM, SUM):
-            out.append((asz, primary, ()))
-    # seeded stores: overlapping writes; a write straddling the wrap; constants next to each other; a shifted copy
-    pre1 = (("w", SYM, -2, ("X", 64)), ("w", SYM, 0, ("Y", 16)), ("w", SYM, -1, ("C", 16)))
-    pre2 = (("w", INT, -1, ("X", 32)), ("w", INT, 1, ("C", 8)), ("w", INT, 3, ("C", 32)))
-    pre3 = (("w", SUM, -2, ("M", 32, 1)), ("w", SUM, 0, ("X", 16)))
-    out.append((8, SYM, pre1))
-    out.append((32, INT, pre2))
-    out.append((32, SUM, pre3))
-    if not quick:
-        out.append((32, SYM, pre1))
-        out.append((8, INT, pre2))
-        out.append((8, SUM, pre3))
-    return out
+            add("thorough", (asz, primary, (), 4, False))
+    for asz in (8, 32):
+        for primary in (INT, SYM, SUM):
+            add("thorough", (asz, primary, (), 3, True))
+    for asz in (8, 32):
+        for primary, pre in ((SYM, PRE1), (INT, PRE2), (SUM, PRE3)):
+            add("thorough", (asz, primary, pre, 3, False))
 
 
-SEEDS_Q = _seeds(True)
-SEEDS_T = _seeds(False)
-DEPTH_Q = 3
-DEPTH_T = 4
+_plan()
+
+
+class _Sub(object):
+    """The system restricted to the seeds of one tier (bfs.explore starts from every seed it is given):
+    seeds are passed as indexes into SEEDS, so that recorded cases carry tier-independent handles."""
+
+    def __init__(self, mod):
+        self.mod = mod
+        self.events, self.apply, self.invariant, self.canon, self.outcome = mod.events, mod.apply, mod.invariant, mod.canon, mod.outcome
+
+    def make(self, seed_idx):
+        return self.mod.make(SEEDS[seed_idx])
 
 
 def run(ctx):
     import sys
-    seeds = SEEDS_Q if ctx.quick else SEEDS_T
-    depth = DEPTH_Q if ctx.quick else DEPTH_T
-    _MENU["more"] = not ctx.quick
-    cov = bfs.explore(ctx, sys.modules[__name__], max_depth=depth, seeds=seeds, chunk=4)
-    cov["bounds"] = {"depth": depth, "address_sizes": [8, 32], "bases": ["int", "A", "A+B"], "widths": list(WIDTHS),
-                     "events_per_state": len(events(make(seeds[0]))), "seeds": [repr(s) for s in seeds],
-                     "probe_offsets": PROBE_OFFS, "valuations": NVAL}
+    idxs = PLAN[ctx.tier]
+    # bfs records the position in the list it is given: hand it the full-length list, inactive seeds masked by a
+    # zero depth limit would still be visited, so instead explore from `idxs` and rewrite the recorded positions.
+    sub = _Sub(sys.modules[__name__])
+    depth = max(SEEDS[i][3] for i in idxs)
+    n0 = len(ctx.violations)
+    cov = bfs.explore(ctx, sub, max_depth=depth, seeds=idxs, chunk=4)
+    for v in ctx.violations[n0:]:
+        v["case"]["seed"] = idxs[v["case"]["seed"]]
+    for smp in cov.get("samples", []):
+        smp["seed"] = idxs[smp["seed"]]
+    cov["bounds"] = {"address_sizes": [8, 32], "bases": ["int", "A", "A+B"], "widths": list(WIDTHS),
+                     "seeds(addrsize,base,pre,depth,extended_menu)": [repr(SEEDS[i]) for i in idxs],
+                     "events_per_state": {"base_menu": len(events(make((8, SYM, (), 1, False)))),
+                                          "extended_menu": len(events(make((8, SYM, (), 1, True))))},
+                     "probe_offsets": PROBE_OFFS, "valuations": NVAL, "max_depth": depth}
     return cov
 
 
 def replay(case):
     import sys
-    # SEEDS_Q is a prefix of SEEDS_T, so a seed index recorded by either tier addresses SEEDS_T
-    return bfs.replay(sys.modules[__name__], SEEDS_T, case)
+    return bfs.replay(sys.modules[__name__], SEEDS, case)
